@@ -91,6 +91,10 @@ def run(rep, tier, seed):
             rep.reject({"clause": bad[0], "leg": "C"}, {"kind": "store", "pool": pools[0], "behaviour": b, "detail": bad[1]})
         rep.note_case(repr(b["hist"]))
     rep.traces += len(behs)
+    kinds = {h["call"][0] for b in behs for h in b["hist"]}
+    if not {"rule", "part", "cond"} <= kinds:
+        raise tlc.MachineryError(f"vacuity: generated parse histories lack a parser: {kinds}")
+    rep.extra["actions_taken"] = sorted(kinds)
     rep.sample({"behaviour": [h["call"] for h in behs[0]["hist"]]})
 
     rng = random.Random(seed + 16)
